@@ -31,21 +31,21 @@ def get_parent(filled_grid: FilledGrid[Nx, Ny]) -> grid.Grid[Nx, Ny]: ...
 
 @_wraps(grid.Shift)
 def shift(
-    grid: FilledGrid[Nx, Ny], x_shift: float, y_shift: float
+    zone: FilledGrid[Nx, Ny], x_shift: float, y_shift: float
 ) -> FilledGrid[Nx, Ny]: ...
 
 
 @_wraps(grid.Scale)
 def scale(
-    grid: FilledGrid[Nx, Ny], x_scale: float, y_scale: float
+    zone: FilledGrid[Nx, Ny], x_scale: float, y_scale: float
 ) -> FilledGrid[Nx, Ny]: ...
 
 
 @_wraps(grid.Repeat)
 def repeat(
-    grid: FilledGrid[Any, Any],
+    zone: FilledGrid[Any, Any],
     x_times: int,
     y_times: int,
-    y_spacing: float,
-    x_spacing: float,
+    x_gap: float,
+    y_gap: float,
 ) -> FilledGrid[Any, Any]: ...
